@@ -10,20 +10,40 @@ import vlib
 
 
 class FakeSock:
+    """what a connected stream socket does, as far as the wrapper can tell: recv(bufsize) hands out AT MOST bufsize bytes of what has
+    arrived (the rest stays queued), recv(0) returns b"" at once, a negative size is a ValueError; None in the event list = the call
+    fails (TimeoutError / OSError alternately).  `log` records what each call returned: that is the event list the model is given."""
+
     def __init__(self, events):
         self.events = list(events)
         self.n = 0
+        self.log = []
 
     def recv(self, bufsize, flags=0):
+        if not isinstance(bufsize, int) or isinstance(bufsize, bool):
+            raise TypeError("an integer is required")
+        if bufsize < 0:
+            raise ValueError("negative buffersize in recv")
+        if bufsize == 0:
+            self.log.append(b"")
+            return b""
         if not self.events:
             return b""
         e = self.events.pop(0)
         self.n += 1
         if e is None:
+            self.log.append(None)
             if self.n % 2:
                 raise TimeoutError("timed out")
             raise OSError("reset")
+        if len(e) > bufsize:
+            self.events.insert(0, e[bufsize:])
+            e = e[:bufsize]
+        self.log.append(e)
         return e
+
+
+LAST_LOG = [[]]       # what the recv() calls of the last run_ops returned, in order
 
 
 def blist(bs):
@@ -31,7 +51,9 @@ def blist(bs):
 
 
 def run_ops(p, events, ops, encoding=0, bufsize=4096):
-    w = p.SocketWrapper(FakeSock(events), encoding=encoding, bufsize=bufsize)
+    sk = FakeSock(events)
+    LAST_LOG[0] = sk.log
+    w = p.SocketWrapper(sk, encoding=encoding, bufsize=bufsize)
     outs = []
     for n in ops:
         outs.append(w.readline() if n < 0 else w.read(n))
@@ -84,7 +106,7 @@ def add_case(em, p, chunked, enc, table, events, ops, desc, bufsize=4096):
         exp = b"\x05"
         impl = {"exception": repr(e)}
     tb = "[" + ";".join("(%s, %s)" % (vlib.blob(k), vlib.blob(v)) for k, v in table) + "]"
-    em.add("obs_sock %s %s %s %s" % ("true" if chunked else "false", tb, blist(events), "[" + ";".join(vlib.zlit(n) for n in ops) + "]"),
+    em.add("obs_sock %s %s %s %s" % ("true" if chunked else "false", tb, blist(list(LAST_LOG[0])), "[" + ";".join(vlib.zlit(n) for n in ops) + "]"),
            exp, [], desc, {"recv_events": [e.hex() if e is not None else None for e in events], "ops": ops, "encoding": enc, "bufsize": bufsize}, impl,
            size=sum(len(e) for e in events if e) + sum(len(k) + len(v) for k, v in table),
            spec=["sock", [e.hex() if e is not None else None for e in events], list(ops), enc, bufsize])
